@@ -1,5 +1,25 @@
 """Per-property configuration of bin/check."""
 
+import os, subprocess, json
+
+def facts_factx(repo, lean):
+    """Tie C: regenerate FpVerif/Gen/Facts.lean from the repository's source (deleted first)."""
+    out = os.path.join(lean, 'FpVerif', 'Gen', 'Facts.lean')
+    os.makedirs(os.path.dirname(out), exist_ok=True)
+    if os.path.exists(out):
+        os.remove(out)
+    harness = os.path.join(os.path.dirname(lean), 'harness')
+    env = dict(os.environ, GOFLAGS='-mod=mod', GOPROXY='off', GOSUMDB='off', GOTOOLCHAIN='local')
+    p = subprocess.run(['go', 'run', './cmd/factx', repo, out], cwd=harness, env=env, stdout=subprocess.PIPE,
+                       stderr=subprocess.STDOUT, text=True)
+    if p.returncode != 0 or not os.path.exists(out):
+        return dict(error='factx failed: ' + p.stdout[-800:], obligations=1)
+    info = json.loads(p.stdout.strip().split('\n')[-1])
+    info['obligations'] = 1
+    info['generated'] = 'FpVerif/Gen/Facts.lean'
+    return info
+
+
 def H(cmd, oracle, quick, thorough, **kw):
     d = dict(cmd=cmd, oracle=oracle, n=dict(quick=quick, thorough=thorough))
     d.update(kw)
@@ -28,6 +48,21 @@ CHECKS = {
         modelled='as C01; in addition try.Of/Call/CallUnit (recover -> tryCatch), Recover*/Or*/OrElse* of fp.Try/fp.Option/fp.StateT. '
                  'future.Apply/Apply2: C06.',
         assumptions=['panic values are compared by their canonical rendering', 'debug.Stack() content of try.panicError is not modelled'],
+    ),
+    'C16': dict(
+        spec=['FpVerif.Spec.C16', 'FpVerif.Spec.C16Facts'],
+        facts=facts_factx,
+        harnesses=[H('eval', 'oracle_eval', 4000, 200000, spec_level=True,
+                     extra=dict(quick=['-deep', '2000000'], thorough=['-deep', '20000000']))],
+        level='proof',
+        level_note='trusted: Lean kernel (propext/Classical.choice/Quot.sound only); model fidelity checked by correspondence; '
+                   'sync.Once trusted to give the blocking exactly-once semantics modelled in Model/Memo.lean; PARTIAL: constant machine-stack '
+                   'use per loop iteration is measured by the harness (call depth probes, 2e6 / 2e7 deep tail recursion under a 32 MB stack cap), '
+                   'the Lean theorems give the structural part (no pending continuation accumulates; n tail calls = n loop iterations).',
+        modelled='lazy/lazy.go (Eval, Resume, Run loop with fuel, FlatMap, Map, Map2, Done, Call, TailCall, TailCallN as TailCall) with '
+                 'logging thunks; Memoize as a Once-guarded cell under arbitrary interleavings; facts: Call/TailCall/MakeList route through '
+                 'Memoize, every Memoize uses sync.Once. Panicking thunks are not modelled.',
+        assumptions=['thunks may log but do not panic', 'sync.Once semantics as in Model/Memo.lean'],
     ),
     'C17': dict(
         spec=['FpVerif.Spec.C17'],
